@@ -131,6 +131,10 @@ func corruptions(r *rng.R, root *model.Node, path string) []string {
 	for _, pre := range []string{"$", "@", "/", " ", "\t", "~", "^", "*", "&", "?", "!", "\\", "$$", "$root", "this", "root", "0", "\x00", "\ufeff"} {
 		out = append(out, pre+path)
 	}
+	// names that other path languages treat as properties of a list or an object: here they are keys like any other
+	for _, prop := range []string{".count", ".length", ".size", ".len", ".first", ".last", ".keys", ".values", ".type", ".*", "#*", "#-", "#last", "#$"} {
+		out = append(out, path+prop)
+	}
 	out = append(out, path+".", path+"#", path[1:], "."+path, "#"+path, path+".zz", path+"#0", path+"#9", path+".a", path+".id", path+".key#0", path+"#1", path+"#2.a", path+".0", path+".x.a.b")
 	for i := range segs {
 		c := append([]model.Seg{}, segs...)
